@@ -62,7 +62,7 @@ def record(d, rng, cycles, exhaustive_limit):
             for (n, w), v in zip(ins, iv):
                 w.put(v)
             sim.clk(1)
-            steps.append({'i': [L(v) for v in iv], 'o': [L(w.get()) for _, w in outs], 'skip': 1 if divzero(d['hw']) else 0})
+            steps.append({'i': [L(v) for v in iv], 'o': [L(w.get()) for _, w in outs], 'skip': 1 if divzero(d['hw']) else 0, 'v': []})
     return pre, steps
 
 
@@ -102,7 +102,8 @@ def judge(run, items, tag):
         from py4hw.rtl_generation import getVerilogModuleName, getPortName
         topname = getVerilogModuleName(d['top'], noInstanceNumber=True)
         traces.append({'file': ast, 'top': topname, 'ins': [getPortName_(n) for n, _ in d['ins']],
-                       'outs': [getPortName_(n) for n, _ in d['outs']], 'pre': pre, 'steps': steps})
+                       'outs': [getPortName_(n) for n, _ in d['outs']], 'pre': pre, 'steps': steps, 'vars': d.get('vars', []),
+                       'xcheck': d.get('xcheck', 0)})
         metas.append((d, text))
     for c0 in range(0, len(traces), 200):
         part = traces[c0:c0 + 200]
